@@ -39,8 +39,21 @@ type obsStats struct {
 	mapDecisions, mapNonSorted int
 }
 
+// callLog collects, per execution, the calls the library makes into the program's completion
+// callbacks (which callback, with which arguments, in which order): part of the observable result.
+var callLog *strings.Builder
+
 func define(o *getoptions.GetOpt, d OptDef) {
 	var fns []getoptions.ModifyFn
+	if d.SuggFn {
+		name := d.Name
+		fns = append(fns, o.SuggestedValuesFn(func(target string, partial string) []string {
+			if callLog != nil {
+				fmt.Fprintf(callLog, "[valuefn %s target=%s partial=%q]", name, target, partial)
+			}
+			return []string{"fnval-b", "fnval-a", partial + "x", "fnval-a"}
+		}))
+	}
 	if len(d.Aliases) > 0 {
 		fns = append(fns, o.Alias(d.Aliases...))
 	}
@@ -124,6 +137,15 @@ func build(o *getoptions.GetOpt, c *CmdDef, path string, ran *string, nodes *[]n
 	}
 	if len(c.ArgComp) > 0 {
 		o.ArgCompletions(c.ArgComp...)
+	}
+	for k := 0; k < c.ArgCompFns; k++ {
+		k, p := k, path
+		o.ArgCompletionsFns(func(target string, prev []string, partial string) []string {
+			if callLog != nil {
+				fmt.Fprintf(callLog, "[argfn %s#%d target=%s prev=%q partial=%q]", p, k, target, prev, partial)
+			}
+			return []string{"fnarg-" + fmt.Sprint(k), "fnarg-common", "apple"}
+		})
 	}
 	for i, s := range c.Synopsis {
 		desc := "about " + s
@@ -227,6 +249,9 @@ func observeArgv(sc *Scenario, ord Order, st *obsStats, shared []string) (out st
 					opt.SetMapKeysToLower()
 				}
 				ran := ""
+				var calls strings.Builder
+				callLog = &calls
+				defer func() { callLog = nil }()
 				var nodes []node
 				build(opt, &sc.Root, "prog", &ran, &nodes)
 				if sc.Help {
@@ -272,6 +297,7 @@ func observeArgv(sc *Scenario, ord Order, st *obsStats, shared []string) (out st
 					}
 				}
 				fmt.Fprintf(&b, "%s.writer=%q\n", mode, w.String())
+				fmt.Fprintf(&b, "%s.callbacks=%s\n", mode, calls.String())
 			}()
 		}
 	})
@@ -550,6 +576,11 @@ func shrinkCmd(c *CmdDef, emit func()) {
 			emit()
 			o.ArgName = s
 		}
+		if o.SuggFn {
+			o.SuggFn = false
+			emit()
+			o.SuggFn = true
+		}
 		if o.Kind != 0 {
 			s := o.Kind
 			o.Kind = 0
@@ -584,6 +615,12 @@ func shrinkCmd(c *CmdDef, emit func()) {
 		c.ArgComp = nil
 		emit()
 		c.ArgComp = s
+	}
+	if c.ArgCompFns != 0 {
+		s := c.ArgCompFns
+		c.ArgCompFns = 0
+		emit()
+		c.ArgCompFns = s
 	}
 	if c.Synopsis != nil {
 		s := c.Synopsis
